@@ -275,10 +275,29 @@ func (r *Reader) parseWorksheet(data []byte, name string, index int) (*Sheet, er
 	maxRow := 0
 	maxCol := 0
 
+	// The r attribute of a row is optional: without it the row is the one its
+	// cells' references name, or else the one after the previous row.
+	rowNums := make([]int, len(ws.SheetData.Rows))
+	prevRow := 0
+	for i, row := range ws.SheetData.Rows {
+		num := row.R
+		if num <= 0 {
+			num = prevRow + 1
+			for _, cell := range row.Cells {
+				if _, cellRow, err := ParseCellRef(cell.R); err == nil {
+					num = cellRow + 1
+					break
+				}
+			}
+		}
+		rowNums[i] = num
+		prevRow = num
+	}
+
 	// First pass: find dimensions
-	for _, row := range ws.SheetData.Rows {
-		if row.R > maxRow {
-			maxRow = row.R
+	for i, row := range ws.SheetData.Rows {
+		if rowNums[i] > maxRow {
+			maxRow = rowNums[i]
 		}
 		for _, cell := range row.Cells {
 			col, _, err := ParseCellRef(cell.R)
@@ -310,8 +329,8 @@ func (r *Reader) parseWorksheet(data []byte, name string, index int) (*Sheet, er
 	}
 
 	// Second pass: populate cells
-	for _, row := range ws.SheetData.Rows {
-		rowIdx := row.R - 1 // Convert to 0-indexed
+	for i, row := range ws.SheetData.Rows {
+		rowIdx := rowNums[i] - 1 // Convert to 0-indexed
 		if rowIdx < 0 || rowIdx >= len(sheet.Rows) {
 			continue
 		}
